@@ -1339,7 +1339,9 @@ func (c *Ctx) stringConstsDeep(g *ssa.Function, depth int) map[string]bool {
 // underRecover: f defers a closure that calls recover() and stores an error into a named result of f.
 func (k *c19) underRecover(f *ssa.Function) bool { return recoverSetsError(f) }
 
-// recoverSetsError: f defers a closure that calls recover() and stores a non-nil error into an error result of f.
+// recoverSetsError: f defers a function that calls recover() itself and, when it recovered something, stores a non-nil
+// error into an error result of f: a closure writing the captured result, or a named function handed the result's
+// address (defer handle(&err)).
 func recoverSetsError(f *ssa.Function) bool {
 	ok := false
 	forEachInstr(f, func(in ssa.Instruction) {
@@ -1348,8 +1350,31 @@ func recoverSetsError(f *ssa.Function) bool {
 			return
 		}
 		var fn *ssa.Function
+		errCell := func(addr ssa.Value) bool { return false }
 		if mc, isMC := d.Call.Value.(*ssa.MakeClosure); isMC {
 			fn, _ = mc.Fn.(*ssa.Function)
+			errCell = func(addr ssa.Value) bool {
+				fv, isFV := addr.(*ssa.FreeVar)
+				return isFV && isErrType(fv.Type().(*types.Pointer).Elem())
+			}
+		} else if g := d.Call.StaticCallee(); g != nil && g.Blocks != nil {
+			fn = g
+			errCell = func(addr ssa.Value) bool {
+				p, isP := addr.(*ssa.Parameter)
+				if !isP {
+					return false
+				}
+				pt, isPtr := p.Type().Underlying().(*types.Pointer)
+				if !isPtr || !isErrType(pt.Elem()) {
+					return false
+				}
+				i := paramIndex(p)
+				if i < 0 || i >= len(d.Call.Args) {
+					return false
+				}
+				al, isAl := d.Call.Args[i].(*ssa.Alloc)
+				return isAl && al.Parent() == f
+			}
 		}
 		if fn == nil {
 			return
@@ -1361,12 +1386,8 @@ func recoverSetsError(f *ssa.Function) bool {
 					hasRecover = true
 				}
 			}
-			if st, isS := i2.(*ssa.Store); isS {
-				if fv, isFV := st.Addr.(*ssa.FreeVar); isFV && isErrType(fv.Type().(*types.Pointer).Elem()) {
-					if nonNilErr(st.Val, st) {
-						storesErr = true
-					}
-				}
+			if st, isS := i2.(*ssa.Store); isS && errCell(st.Addr) && nonNilErr(st.Val, st) {
+				storesErr = true
 			}
 		})
 		if hasRecover && storesErr {
